@@ -18,7 +18,7 @@ UNITS = {
   'mkt': dict(wrapper='w_market.cpp', mode='seq', cxxflags=CXX, cut=CUT_ARENA, selftest=True),
   'slots2': dict(wrapper='w_slots.cpp', mode='lcs', unroll=3, cxxflags=CXX, cut=CUT_SLOTS, threads=thr(2)),
   'slots3': dict(wrapper='w_slots.cpp', mode='lcs', unroll=3, cxxflags=CXX, cut=CUT_SLOTS, threads=thr(3)),
-  'exec2': dict(wrapper='w_exec.cpp', mode='lcs', unroll=3, cxxflags=CXX, cut=CUT_SLOTS + CUT_VIRT + ['notify_one_relaxed'], threads={'vp_thr_exec': ['a', 'b']}),
+  'execseq': dict(wrapper='w_exec.cpp', mode='seq', cxxflags=CXX, cut=CUT_SLOTS + CUT_VIRT + ['notify_one_relaxed']),
   'iso': dict(wrapper='w_iso.cpp', mode='seq', cxxflags=CXX, cut=CUT_ARENA + ['advertise_new_work'] + CUT_VIRT, selftest=True),
 }
 
@@ -89,11 +89,10 @@ HARNESSES = [
        desc='2 threads (worker: try_join + occupy_free_slot<true> + on_thread_leaving; external: occupy_free_slot<false>) entering and leaving a 3-slot arena with 1 reserved slot under every interleaving: slot indices distinct and < num_slots, workers never in the reserved slot, my_limit covers every occupied slot, truthful failure, reference word restored',
        bounds={'threads': 2, 'slots': 3, 'reserved': 1, 'free_rounds': '1 quick / 2 thorough', 'forced_rounds': 2, 'loop unroll': 3, 'visits per thread': '1 quick; thorough also (2,1)',
                'symbolic': 'schedule, slot hints, RNG state, allotment, foreign-occupied slots'}),
-  dict(name='exec_leave', unit='exec2', harness='h_exec.c', defines={'NSLOTS': 2, 'NRES': 1, 'ROUNDS': 1},
-       scenarios=[{}], cbmc=['--unwind', '8', '--object-bits', '12'], timeout=1200,
-       thorough_override={'defines': {'NSLOTS': 2, 'NRES': 1, 'ROUNDS': 2}, 'timeout': 3600},
-       desc='2 external threads on the enter/leave path of task_arena::execute (occupy_free_slot<false>, nested_arena_context constructor and destructor) with the observer callbacks as harness stubs: between on_scheduler_entry and the return of on_scheduler_exit no two threads hold the same index, the slot is still owned by the caller at exit time, at most max_concurrency threads inside, one exit per entry on the same thread, thread restored to its home arena',
-       bounds={'threads': 2, 'slots': 2, 'reserved': 1, 'free_rounds': '1 quick / 2 thorough', 'forced_rounds': 2, 'symbolic': 'schedule, foreign-occupied slots (incl. only one free slot)'}),
+  dict(name='exec_leave', unit='execseq', harness='h_exec_seq.c', defines={'NSLOTS': 2, 'NRES': 1, 'NPOINTS': 16},
+       scenarios=[{}], cbmc=['--unwind', '8', '--object-bits', '10'] + FS, timeout=1200,
+       desc='enter/leave path of task_arena::execute (occupy_free_slot<false>, nested_arena_context constructor and destructor) with the scheduler-observer callbacks as harness stubs; thread T1 runs its complete enter and its complete leave at solver-chosen boundary calls of thread T0: between on_scheduler_entry and the return of on_scheduler_exit no two threads hold the same index, the slot is still owned by the caller when on_scheduler_exit runs, at most max_concurrency threads inside, one exit per entry on the same thread, thread restored to its home arena',
+       bounds={'threads': 2, 'slots': 2, 'reserved': 1, 'interleaving': 'T1 enter / leave atomic, placed at any of the boundary calls of T0 (observer callbacks, adjust_demand, notify_one, wrapper observer points)', 'symbolic': 'placement K1 <= K2, foreign-occupied slots (incl. only one free slot), RNG state'}),
   dict(name='slots_3t', unit='slots3', harness='h_slots.c', defines={'NT': 3, 'NSLOTS': 3, 'NRES': 1, 'ROUNDS': 1},
        scenarios=SL3[:1], scenarios_thorough=SL3, cbmc=['--unwind', '8', '--object-bits', '12'], timeout=1200,
        thorough_override={'timeout': 3600},
